@@ -98,6 +98,24 @@ def relations(case, ctx):
             conv = [[b, d - b] for b, d in D]
             if not close(T(conv, skew=False), both, scale):
                 ctx.violation("skew", "birth-death + skew=True differs from pre-converted + skew=False", extra=ex)
+            # the combined call: fit_transform of the birth-death form, of the pre-converted form with skew=False,
+            # and fit followed by transform give one and the same image (each on its own copy of the imager; needs
+            # data of positive extent in birth and in persistence)
+            if i < j and (i + 2 * j) % 11 == 0 and D[0][0] != D[1][0] and conv[0][1] != conv[1][1]:
+                import copy
+
+                A_bd, A_bp = np.array(D, dtype=float), np.array(conv, dtype=float)
+                f1 = np.asarray(ctx.call(copy.deepcopy(im).fit_transform, A_bd))
+                f2 = np.asarray(ctx.call(copy.deepcopy(im).fit_transform, A_bp, skew=False))
+                im3 = copy.deepcopy(im)
+                im3.fit(A_bp, skew=False)
+                f3 = np.asarray(ctx.call(im3.transform, A_bp, skew=False))
+                ctx.valid(2)
+                ctx.nontriv("fit_transform_call_styles", key=(case, weight, i, j))
+                if f1.shape != f3.shape or not close(f1, f3, scale):
+                    ctx.violation("fit-transform-style", "fit_transform(D) differs from fit + transform of the pre-converted form", observed=f1.tolist(), expected=f3.tolist(), extra=ex)
+                if f2.shape != f3.shape or not close(f2, f3, scale):
+                    ctx.violation("fit-transform-style", "fit_transform(pre-converted, skew=False) differs from fit + transform with skew=False", observed=f2.tolist(), expected=f3.tolist(), extra=ex)
             # alone vs inside a collection (in order)
             coll = ctx.call(im.transform, [np.array(D, dtype=float), np.array([POINTS[i]], dtype=float)])
             if not (isinstance(coll, list) and len(coll) == 2 and np.array_equal(np.asarray(coll[0]), both) and np.array_equal(np.asarray(coll[1]), single[i])):
